@@ -242,6 +242,27 @@ def wthh_function(ck, n):
     discharge(ck, obs, n, {"hh": hh, "v1": v1, "v2": v2}, lambda vals, nm: wthh_real(vals, nm, n))
 
 
+def wthh_sep_function(ck, n):
+    """rows of A (the first na) get the same partition whether or not the households of B are in the data"""
+    from _gettsim.groupings import wthh_id_numpy
+    hh, v1, v2 = ints("hh", n), bools("v1", n), bools("v2", n)
+    pre = [z3.And(h >= 0, h <= 10 ** 6) for h in hh]
+
+    def ids_for(rows):
+        v, raises, assume, funcs = run(wthh_id_numpy, {"hh_id": col(hh, rows, int), "wohngeld_vorrang_bg": col(v1, rows, bool),
+                                                       "wohngeld_kinderzuschl_vorrang_bg": col(v2, rows, bool)}, None)
+        return by_person(v, rows, len(rows)), raises, assume, funcs
+    full, raises, assume, funcs = ids_for(range(n))
+    ck.functions |= funcs
+    obs = []
+    for na in range(1, n):
+        alone, r2, a2, _ = ids_for(range(na))
+        disjoint = [hh[a] != hh[b] for a in range(na) for b in range(na, n)]
+        obs.append((f"wthh_sep[{na}]", "wthh: the households A alone and A together with unrelated households B get the same partition of A",
+                    pre + assume + a2 + disjoint + [z3.Or(raises != r2, z3.Or([(full[a] == full[b]) != (alone[a] == alone[b]) for a in range(na) for b in range(a + 1, na)]))]))
+    discharge(ck, obs, n, {"hh": hh, "v1": v1, "v2": v2}, lambda vals, nm: wthh_real(vals, nm, n))
+
+
 def wthh_real(vals, nm, n):
     from _gettsim.groupings import wthh_id_numpy
     hh, v1, v2 = vals["hh"], vals["v1"], vals["v2"]
@@ -252,6 +273,16 @@ def wthh_real(vals, nm, n):
         for pos, i in enumerate(order):
             back[i] = int(ids[pos])
         return [[back[a] == back[b] for b in range(n)] for a in range(n)]
+    if nm.startswith("wthh_sep["):
+        na = int(nm[len("wthh_sep["):-1])
+
+        def part_of(rows):
+            try:
+                ids = _real(wthh_id_numpy)(numpy.array([hh[i] for i in rows]), numpy.array([v1[i] for i in rows]), numpy.array([v2[i] for i in rows]))
+            except Exception as e:   # noqa: BLE001
+                return f"raises {type(e).__name__}"
+            return [[int(ids[a]) == int(ids[b]) for b in range(na)] for a in range(na)]
+        return part_of(range(n)) != part_of(range(na))
     base = part(range(n))
     if nm == "wthh_def":
         want = [[a == b or (hh[a] == hh[b] and ((v1[a] or v2[a]) == (v1[b] or v2[b]))) for b in range(n)] for a in range(n)]
@@ -313,6 +344,8 @@ def run_all(ck, n, which=("eg", "ehe", "sn", "bg", "wthh")):
         _for_variants(ck, G.bg_id_numpy, lambda: bg_function(ck, n))
     if "wthh" in which:
         _for_variants(ck, G.wthh_id_numpy, lambda: wthh_function(ck, n))
+    if "wthh_sep" in which:
+        _for_variants(ck, G.wthh_id_numpy, lambda: wthh_sep_function(ck, n))
 
 
 def replay(d):
